@@ -183,7 +183,7 @@ pub fn c08() -> PropDef {
             ];
         }),
         sched: mk_sched(|c| {
-            c.threads = ThreadsCfg::MaxN(8);
+            c.threads = ThreadsCfg::MaxN(12);
             c.pos = ParamPos::OnSource;
             c.chunk = ChunkCfg::Small(3);
             c.terms = vec![
